@@ -1,4 +1,4 @@
-CONSTANTS Family = "flags"  MaxOps = 1  Bug = "KeepCoW"  Emit = FALSE
+CONSTANTS Family = "flags"  MaxOps = 1  Bug = "KeepCoW"  Emit = FALSE  Wide = FALSE
 CONSTANT Codes <- MCCodesQuick
 INIT Init
 NEXT Next
